@@ -104,17 +104,28 @@ def _split(o):
 
 def run_text(ctx):
     rng = ctx.rng
-    cases, meta = [], []
+    datas = []
     for _ in range(ctx.scale(50, 600)):
         doc = td.gen_doc(rng, depth=rng.choice([1, 2, 3]))
         d = td.render(doc, rng, rng.choice(td.STYLES), bom=rng.random() < 0.1)
         if len(d) > 130:
             continue
+        datas.append(d)
+    judge_text(ctx, "text_token_truncations", datas, "text_token_truncation_cases")
+
+
+def judge_text(ctx, stream, datas, counter):
+    """every prefix of every byte string of `datas` through the slice and the streaming token reader (a_c19: split out of
+    run_text so that props/C19_view.py can feed the directed documents -- ending in a comment, `@[..]`, a parameter block,
+    an rgb header, behind a BOM -- through the same oracle)"""
+    rng = ctx.rng
+    cases, meta = [], []
+    for d in datas:
         for k in range(len(d) + 1):
             h = hexs(d[:k])
             for c in ("tr.slice\t%s" % h, "tr.stream\t%d\t%s\t%s" % (rng.choice([160, 300]), rng.choice(["-", ",".join(["1"] * min(k, 200)) or "-", "5,1,3,9,2"]), h)):
                 cases.append(c); meta.append((d, k))
-    impl, _ = ctx.correspond("text_token_truncations", cases, nontrivial=lambda c, i: " END @" in i)
+    impl, _ = ctx.correspond(stream, cases, nontrivial=lambda c, i: " END @" in i)
     base = len(impl) - len(cases)
     full = {}
     for j, (d, k) in enumerate(meta):
@@ -150,7 +161,7 @@ def run_text(ctx):
                 bad = "token %d is %s, the complete document has %s" % (i, t, T[i]); break
         if bad:
             ctx.fail("text-lex-trunc-fabricated", "%s on %r cut at %d: %s (%s)" % (kind, d, k, bad, o[:160]), [cases[j]], [o], " ".join(T)[:200])
-    ctx.count("text_token_truncation_cases", len(cases))
+    ctx.count(counter, len(cases))
 
 
 def run_part(ctx):
